@@ -111,6 +111,21 @@ def editsOf : List Sexp → Option (List (Nat × Nat × Nat))
     | _, _, _, _ => none
   | _ => none
 
+/-- Column ranges `[c0, e)` that the server's token lookup attributes to the string literals of a line:
+`<Token as Locational>::col_end` (crates/erg_parser/token.rs) is `col_begin + content.len()`, the BYTE length of the
+escape-processed content (`\t` becomes four blanks), not the number of source columns the literal occupies. -/
+def strExtentsGo : List Char → Nat → Option (Nat × Nat) → List (Nat × Nat)
+  | [], _, _ => []
+  | c :: cs, col, none => if c == '"' then strExtentsGo cs (col + 1) (some (col, 1)) else strExtentsGo cs (col + 1) none
+  | c :: cs, col, some (c0, b) =>
+    if c == '"' then (c0, c0 + b + 1) :: strExtentsGo cs (col + 1) none
+    else if c == '\\' then
+      match cs with
+      | x :: cs' => strExtentsGo cs' (col + 2) (some (c0, b + (if x == 't' then 4 else x.utf8Size)))
+      | [] => []
+    else strExtentsGo cs (col + 1) (some (c0, b + c.utf8Size))
+termination_by cs => cs.length
+
 def progCase (id : String) (items : List Sexp) (impl : String) (haveImpl : Bool) : String :=
   match tagged "src" items, tagged "new" items, tagged "toks" items, tagged "tm" items with
   | some [.str src], some [.str new], some ts, some [tmx] =>
@@ -167,8 +182,8 @@ def progCase (id : String) (items : List Sexp) (impl : String) (haveImpl : Bool)
           let afterMixed := match tab i with
             | some p =>
               let ln := (((String.ofList src).splitOn "\n").getD p.line "").toList
-              let pre := ln.take (u16idx ln p.col)
-              pre.contains '\\' && pre.any (fun c => c.toNat ≥ 128)
+              -- the request column lies inside the (byte-counted) extent of a string literal that starts left of the token
+              (strExtentsGo ln 0 none).any (fun (c0, e) => c0 < u16idx ln p.col && c0 ≤ p.col && p.col < e)
             | none => false
           if sortTriples got == want && !dups.contains i then none
           else some (i, drifted i || sites.any drifted, (dups.contains i && isLam) || (empties.contains i && (shadowDef i || afterMixed)))
